@@ -223,7 +223,19 @@ func vh_C18_L4_read_deadline() {
 	vMayBlock()
 	vassert(n == 0 && errors.Is(rerr, ErrReadDeadlineExceeded), "deadline error, no duplicate of the message")
 	vassert(errors.Is(rerr, os.ErrDeadlineExceeded), "recognisable as os.ErrDeadlineExceeded")
+	// a message that arrives while the expired deadline is still posted (a polling reader
+	// between two reads) is kept: it is acknowledged to the sender, so it must be readable
+	next := cum + 1
+	if hasMsg {
+		next = cum + 2
+	}
+	vassert(vDeliver(a, vDataChunk(a, next, 3, true, 2)) == nil, "DATA ok")
+	vassert(a.peerLastTSN() == next, "the late message is acknowledged")
 	// clearing the deadline makes the stream usable again
 	vassert(s.SetReadDeadline(time.Time{}) == nil && s.readErr == nil, "clearing the deadline removes the deadline error")
+	vMustNotBlock("a read with data available returns")
+	n, _, rerr = s.ReadSCTP(buf)
+	vMayBlock()
+	vassert(n == 2 && rerr == nil, "a message that arrived while the deadline error was posted is delivered")
 	vcover("end")
 }
